@@ -30,7 +30,7 @@ Import ListNotations.
 From CXV Require Import Gen.TokTy Gen.ParserTables Gen.TopLoop Parse.Balanced Parse.BalancedThms Parse.Declarator Parse.DeclSpec Parse.DeclThms
   Parse.EnumList Parse.Specs Parse.VarStmt Parse.FnTail Parse.Init Parse.Members Parse.MethodTail Parse.DeclStmt Parse.MemberStmt
   Parse.ConvOp Parse.OperatorMember Parse.OperatorFn Parse.MethodImpl Parse.FriendStmt Parse.BaseClause Parse.ClassEnum Parse.FinishClass
-  Parse.Bodies Parse.NsHeader Parse.PQName Parse.Using.
+  Parse.Bodies Parse.NsHeader Parse.PQName Parse.Using Parse.Template Parse.TemplateStmt.
 From CXV Require Parse.DispatchLang Gen.Dispatch.
 Open Scope N_scope.
 
@@ -154,7 +154,7 @@ Definition enum_head (td : bool) (s : tk) (r : list tk) : dres (option pq * opti
     end
   else DErr 1.
 
-Definition class_stmt_head (td : bool) (toks : list tk) : chead :=
+Definition class_stmt_head (td tmpl : bool) (toks : list tk) : chead :=
   match ckey_loop mods0 toks with
   | None => CHNot
   | Some (DErr e) => CHErr e
@@ -163,7 +163,7 @@ Definition class_stmt_head (td : bool) (toks : list tk) : chead :=
       match spec_loop m (Some 0) r with
       | DErr e => CHErr e
       | DOk (m2, _, r2) =>
-          match class_enum key m2 false td false r2 with
+          match class_enum key m2 tmpl td false r2 with
           | DErr e => CHErr e
           | DOk (CEForward, r3) => match nm with Some n => CHFwd m2 key n r3 | None => CHErr 4 end
           | DOk (CEClass s, r3) =>
@@ -190,6 +190,7 @@ Inductive item :=
 | IEnumFwd (acc : N) (key : list N) (name : N) (base : pq)                                     (* enum E : base; *)
 | IEnum (acc : N) (m : mods) (key : list N) (name : N) (anon td : bool) (base : option pq) (items : list enumerator) (fin : fin_result)
 | IUsing (acc : N) (u : ures)
+| ITemplate (headers : list (list tparam)) (it : item)                  (* template <...> [template <...> ...] class-key ... *)
 | IClass (acc : N) (c : cdef)
 | INamespace (inline : bool) (names : list N) (members : list item)     (* namespace a::b { ... } *)
 | IAlias (alias : N) (names : list N)                                   (* namespace a = b::c; (0: a leading '::') *)
@@ -215,11 +216,12 @@ Fixpoint body (k n fuel : nat) (dt : list (N * N)) (ctx : option (N * N)) (acc a
       let encl := match ctx with Some p => p | None => (anon_base, anon_base) end in
       let in_class := match ctx with Some _ => true | None => false end in
       let acc_out := if in_class then acc else 0 in
-      let class_stmt := fun (td : bool) (toks' : list tk) (otherwise : unit -> dres (list item * N * list tk)) =>
-        match class_stmt_head td toks' with
+      let class_stmt := fun (hs : list (list tparam)) (td : bool) (toks' : list tk) (otherwise : unit -> dres (list item * N * list tk)) =>
+        let wrap := fun (it : item) => match hs with [] => it | _ => ITemplate hs it end in
+        match class_stmt_head td (match hs with [] => false | _ => true end) toks' with
         | CHNot => otherwise tt
         | CHErr e => DErr e
-        | CHFwd m key nm r => cont aid (IFwd acc_out key nm) r
+        | CHFwd m key nm r => cont aid (wrap (IFwd acc_out key nm)) r
         | CHEnumFwd m key nm q r =>
             match nm with
             | Some x => cont aid (IEnumFwd acc_out key x q) r
@@ -243,7 +245,7 @@ Fixpoint body (k n fuel : nat) (dt : list (N * N)) (ctx : option (N * N)) (acc a
                     if is RBRACE cb then
                       match finish_class n fuel in_class td anon (negb (key_is T_class key)) m (fst encl) (snd encl) bn (m_const m) (m_volatile m) r2 with
                       | DErr e => DErr e
-                      | DOk (fin, r3) => cont aid2 (IClass acc_out (mkCD m key bn anon td fi ex bs members fin)) r3
+                      | DOk (fin, r3) => cont aid2 (wrap (IClass acc_out (mkCD m key bn anon td fi ex bs members fin))) r3
                       end
                     else DErr 3
                 | [] => DErr 4                              (* the class is left open at the end of input *)
@@ -271,7 +273,7 @@ Fixpoint body (k n fuel : nat) (dt : list (N * N)) (ctx : option (N * N)) (acc a
                  end
         end in
       let declarations := fun (toks' : list tk) =>
-        class_stmt false toks'
+        class_stmt [] false toks'
           (fun _ => match ctx with
                     | Some (cls, dcls) =>
                         match member_decl n fuel cls dcls toks' with
@@ -292,6 +294,21 @@ Fixpoint body (k n fuel : nat) (dt : list (N * N)) (ctx : option (N * N)) (acc a
               if h =? H_on_block_end then DOk ([], aid, toks)
               else if h =? 0 then skip r
               else if h =? H_parse_namespace then namespace_stmt false r
+              else if h =? H_parse_template then
+                (* _parse_template (Parse/TemplateStmt.v): the headers, then -- in this model -- a class definition or a class
+                   forward declaration, which receives them; every other continuation is outside *)
+                match r with
+                | lt :: _ =>
+                    if is LT lt then
+                      match template_stmt n fuel r with
+                      | DErr e => DErr e
+                      | DOk (kind, hs, r1) =>
+                          if kind =? K_DECL then class_stmt hs false (skipn (length r - S (length r1)) r) (fun _ => DErr 4)
+                          else DErr 4
+                      end
+                    else DErr 4
+                | [] => DErr 4
+                end
               else if h =? H_parse_using then
                 match using_stmt in_class false fuel r with
                 | DErr e => DErr e
@@ -340,7 +357,7 @@ Fixpoint body (k n fuel : nat) (dt : list (N * N)) (ctx : option (N * N)) (acc a
                       match DispatchLang.run Dispatch.prog_parse_typedef false t r with
                       | DispatchLang.OCall DispatchLang.F_declarations [DispatchLang.RTok (Some x); DispatchLang.RDox]
                                            [(1, DispatchLang.RBool true)] r1 =>
-                          class_stmt true (x :: r1)
+                          class_stmt [] true (x :: r1)
                             (fun _ => match typedef_decl_stmt n fuel (x :: r1) with
                              | DErr e => DErr e
                              | DOk (l, r') => cont aid (INs (NTypedefs l)) r'
